@@ -165,7 +165,11 @@ func (h *DefaultHandler) HandleOutgoing(msgType string, handle OutgoingHandlerFu
 
 // ServeIncoming is an internal method for handling incoming messages.
 func (h *DefaultHandler) ServeIncoming(msg []byte) {
-	h.incoming <- msg
+	select {
+	case h.incoming <- msg:
+	case <-h.ctx.Done():
+		// the handler is stopped and Run no longer drains the queue: drop instead of blocking forever
+	}
 }
 
 func (h *DefaultHandler) serve(msg []byte) (err error) {
